@@ -205,6 +205,9 @@ def run_case(c):
             return None if (relax and got is None) else "returned %s, expected %s" % (lab(got), err if not relax else None)
         return None if got is exp else "returned %s, expected %s" % (lab(got), lab(exp))
     # C08
+    if not relax and not uniq_names(nodes, attr, ic):
+        # duplicates among siblings (also ignoring case when ignorecase is set) are in the property's scope for relaxed mode only
+        return None
     exp, dead = ref_glob(start, path, attr, ic)
     try:
         got = r.glob(start, path)
